@@ -105,11 +105,13 @@ class Obligation:
 REGISTRY = {}
 
 
-def obligation(oid, prop=None, tiers=('quick', 'thorough'), programs=('vm',)):
+def obligation(oid, prop=None, tiers=('quick', 'thorough'), programs=('vm',), also=()):
+    """also: further properties whose check runs this obligation too (one kernel can carry clauses of several properties)"""
     prop = prop or oid.split('.')[0]
 
     def deco(fn):
-        REGISTRY.setdefault(prop, []).append(Obligation(oid, prop, fn, tiers, programs, (fn.__doc__ or '').strip()))
+        for p in (prop,) + tuple(also):
+            REGISTRY.setdefault(p, []).append(Obligation(oid, p, fn, tiers, programs, (fn.__doc__ or '').strip()))
         return fn
     return deco
 
